@@ -41,6 +41,7 @@ VARIANTS = [
     ("dump --flame-graph", ["dump", "--flame-graph"]),
     ("dump --graphviz", ["dump", "--graphviz"]),
     ("replay --no-merge", ["replay", "--no-merge"]),
+    ("replay --srcline", ["replay", "--srcline"]),
     ("report -s self,call", ["report", "-s", "self,call"]),
     ("info --task", ["info", "--task"]),
     ("info --symbols", ["info", "--symbols"]),
@@ -233,6 +234,39 @@ def write_dir(case, d):
     b = bytearray(open(p, "rb").read())
     mask = struct.unpack_from("<Q", b, 24)[0] | datadir.INFO_RECORD_DATE | datadir.INFO_PATTERN_TYPE | datadir.INFO_VERSION
     struct.pack_into("<Q", b, 24, mask)
+    if case.get("extra"):
+        # the other files a recording leaves in the directory (end-to-end directories only): perf events of one cpu
+        # (COMM, context switches, FORK/EXIT of the child), the user-event table, external data, the options file
+        # and the debug-info file of the executable
+        feat = struct.unpack_from("<Q", b, 16)[0] | datadir.FEAT_PERF_EVENT
+        struct.pack_into("<Q", b, 16, feat)
+        t0 = case["recs"][0]["t"]
+
+        def sid(tid, t):
+            return struct.pack("<IIQ", tid if tid != 102 else 100, tid, t)
+
+        def ev(ty, misc, body):
+            return struct.pack("<IHH", ty, misc, 8 + len(body)) + body
+        perf = ev(3, 0x2000, struct.pack("<II", 100, 100) + b"prog\0\0\0\0\0\0\0\0\0\0\0\0" + sid(100, t0 + 1))
+        perf += ev(14, 0x2000, sid(100, t0 + 40)) + ev(14, 0, sid(100, t0 + 90))
+        perf += ev(7, 0, struct.pack("<IIIIQ", 101, 100, 101, 100, t0 + 120) + sid(100, t0 + 120))
+        perf += ev(14, 0x6000, sid(102, t0 + 150)) + ev(14, 0, sid(102, t0 + 170))
+        perf += ev(3, 0, struct.pack("<II", 101, 101) + b"child-name\0\0\0\0\0\0" + sid(101, t0 + 200))
+        perf += ev(4, 0, struct.pack("<IIIIQ", 101, 100, 101, 100, t0 + 5000) + sid(101, t0 + 5000))
+        open(os.path.join(d, "perf-cpu0.dat"), "wb").write(perf)
+        open(os.path.join(d, "events.txt"), "wb").write(b"EVENT: 1000000 uftrace:event\nEVENT: 1000001 myprov:second-event\n")
+        open(os.path.join(d, "extern.dat"), "wb").write(
+            ("# external data\n%d.%09d first message\n\n%d.%09d second one with words\n"
+             % ((t0 + 60) // 10**9, (t0 + 60) % 10**9, (t0 + 300) // 10**9, (t0 + 300) % 10**9)).encode())
+        open(os.path.join(d, "default.opts"), "wb").write(b"--no-libcall -D 64\n")
+        syms = case["syms"]
+        dbg = b"# path name: /fake/prog\n"
+        for i, (a, _, _, nm) in enumerate(syms):
+            dbg += ("F: %x %s\nL: %d /src/prog.c\n" % (a, nm, 10 + 7 * i)).encode()
+            if i == 2:
+                dbg += b"A: @arg1/i32\nR: @retval/i64\n"
+        dbg += b"E: enum color {RED=0,GREEN=1,BLUE=2,}\n"
+        open(os.path.join(d, "prog.dbg"), "wb").write(dbg)
     open(p, "wb").write(bytes(b) + INFO_TAIL)
     return open(os.path.join(d, "100.dat"), "rb").read()
 
@@ -590,6 +624,15 @@ def run_cmds(uft, root, files, cmds=None, second=None):
     return res
 
 
+def is_task(fname):
+    """<tid>.dat"""
+    return re.match(r"^\d+\.dat$", fname) is not None
+
+
+def is_binary(fname):
+    return is_task(fname) or fname.startswith("perf-cpu")
+
+
 def text_lines(content, fname):
     """(prefix, [lines with their newline]) of a text file (info: the 40-byte binary header is the prefix)"""
     pre, body = (content[:40], content[40:]) if fname == "info" else (b"", content)
@@ -600,7 +643,7 @@ def e2e(ctx, objdir):
     uft = os.path.join(objdir, "uftrace")
     rng = ctx.rng
     ndirs = ctx.n(1, 2)
-    nvar = ctx.n(10, len(VARIANTS))
+    nvar = ctx.n(11, len(VARIANTS))
     variants = [c for c, _ in VARIANTS[:nvar]] + [c for c, _ in FILTERS[:ctx.n(6, len(FILTERS))]]
     allcmds = CMDS + variants
     for di in range(ndirs):
@@ -610,7 +653,7 @@ def e2e(ctx, objdir):
         write_dir(case, os.path.join(root, "src"))
         files = {n: open(os.path.join(root, "src", n), "rb").read() for n in sorted(os.listdir(os.path.join(root, "src")))}
         full = files["100.dat"]
-        dats = sorted(f for f in files if f.endswith(".dat"))
+        dats = sorted(f for f in files if is_task(f))
         # the model decides, for every cut of the main task file, the length of the copy cut at the last whole record
         defs = ("Definition envl : list (N * N * (list aspec * list aspec)) := %s.\nDefinition rs : list rec := [%s].\n" % (coq_envl(case), ";\n ".join(coq_rec(r) for r in case["recs"])))
         r = coq.run_cases(ctx, "e2e%d" % di, PRE, defs, [
@@ -640,16 +683,36 @@ def e2e(ctx, objdir):
             return max(k, 40) if fname == "info" else k
 
         def unterminated(fname, n):
-            if fname.endswith(".dat") or (fname == "info" and n <= 40):
+            if is_binary(fname) or (fname == "info" and n <= 40):
                 return False
             return line_start(fname, n) != n
 
         # ---- jobs: (file, mode, n): mode "cut" (first n bytes), "missing", "drop" (line n removed, the rest kept)
         jobs = []
         for fname, content in files.items():
-            if fname == "100.dat" or (ctx.thorough() and len(content) <= 2000):
+            if ctx.thorough() and len(content) <= 2000:
                 cuts = list(range(len(content) + 1))
-            elif fname.endswith(".dat"):
+            elif fname == "100.dat":
+                # quick: every record / header / argument-piece boundary +-2, at least two cuts inside every piece (so
+                # every string body), every 3rd byte of the rest (the in-process tie reads every cut of such files)
+                cs = {0, 1, len(content)} | set(range(0, len(content) + 1, 3))
+                for off, he, pe, end, pieces in spans:
+                    lo = he
+                    for b in [off, he, pe, end] + [q[0] for q in pieces]:
+                        cs |= {x for x in range(b - 2, b + 3) if 0 <= x <= len(content)}
+                    for b, _ in pieces:
+                        cs |= {(lo + b) // 2, lo + 1}
+                        lo = b
+                cuts = sorted(cs)
+            elif fname.startswith("perf-cpu"):
+                # quick: every event boundary and header end +-1, every 4th byte
+                cs, off = {0, len(content)} | set(range(0, len(content) + 1, 4)), 0
+                while off + 8 <= len(content):
+                    size = struct.unpack_from("<H", content, off + 6)[0]
+                    cs |= {x for b in (off, off + 8, off + size) for x in (b - 1, b, b + 1) if 0 <= x <= len(content)}
+                    off += max(size, 8)
+                cuts = sorted(cs)
+            elif is_task(fname):
                 # the payload-free files of the other tasks (quick): record boundaries +-1 and every 5th byte
                 cuts = sorted(set(x for b in range(0, len(content) + 1, 16) for x in (b - 1, b, b + 1) if 0 <= x <= len(content))
                               | set(range(0, len(content) + 1, 5)))
@@ -677,11 +740,23 @@ def e2e(ctx, objdir):
             if ctx.thorough() or mode != "cut":
                 return True
             content = files[fname]
-            if fname.endswith(".dat"):
+            if fname.startswith("perf-cpu"):
+                return n % 8 == 0
+            if is_task(fname):
                 tags = classify_cut(spans, n) if fname == "100.dat" else (["at:record-boundary"] if n % 16 == 0 else [])
                 return n == len(content) or any(t.startswith("at:") for t in tags) or n % 16 == 8
             near = [line_start(fname, n), line_start(fname, min(n + 1, len(content)))]
             return n in (0, len(content)) or any(abs(n - k) <= 1 for k in near) or (fname == "info" and n <= 41 and n % 8 == 0) or n % 25 == 0
+
+        def exact_damage(job):
+            """the cut is exactly at a line boundary (text) or at a record boundary / piece boundary (task data)"""
+            fname, mode, n = job
+            if fname.startswith("perf-cpu"):
+                return False
+            if is_task(fname):
+                tags = classify_cut(spans, n) if fname == "100.dat" else (["at:record-boundary"] if n % 16 == 0 else [])
+                return any(t.startswith("at:") for t in tags)
+            return line_start(fname, n) == n
 
         def content_of(job):
             fname, mode, n = job
@@ -702,8 +777,15 @@ def e2e(ctx, objdir):
                 return job, None
             wv = with_variants(job)
             cmds = allcmds if wv else CMDS
-            if job[0] == "info" and not wv:
-                cmds = CMDS + ["dump --flame-graph"]      # reads info.elapsed_time: on every cut of info
+            if wv and not ctx.thorough() and job[1] == "cut" and 0 < job[2] < len(files[job[0]]) and not exact_damage(job):
+                # quick tier: next to (not at) whole-line / whole-record damage and on the sample cuts one third of the
+                # variants runs, rotating with the cut position
+                cmds = CMDS + [c for i, c in enumerate(variants) if i % 3 == job[2] % 3]
+            if (not ctx.thorough() and not wv and job[1] == "cut" and job[0] not in ("info", "task.txt", "default.opts")
+                    and not is_task(job[0])):
+                cmds = [c for c in cmds if c != "info"]     # quick: `uftrace info` opens info, task.txt and the task files only
+            if job[0] == "info" and "dump --flame-graph" not in cmds:
+                cmds = cmds + ["dump --flame-graph"]      # reads info.elapsed_time: on every cut of info
             jd = os.path.join(root, "j-%s-%s-%d" % (job[0].replace("/", "_"), job[1], job[2]))
             r_ = run_cmds(uft, jd, content_of(job), cmds)
             if wv:
@@ -712,7 +794,7 @@ def e2e(ctx, objdir):
                 hung.append(job)
             return job, r_
 
-        canon_needed = sorted(set((f, whole(f, n)) for f, m, n in jobs if m == "cut" and f.endswith(".dat") and n > 0 and whole(f, n) != n)
+        canon_needed = sorted(set((f, whole(f, n)) for f, m, n in jobs if m == "cut" and is_task(f) and n > 0 and whole(f, n) != n)
                               | {(f, 1) for f in dats})
 
         def run_canon(key):
@@ -727,7 +809,8 @@ def e2e(ctx, objdir):
             fname, n, nl = key
             fs = dict(files)
             fs[fname] = files[fname][:n] + (b"\n" if nl else b"")
-            return key, run_cmds(uft, os.path.join(root, "t-%s-%d-%d" % (fname.replace("/", "_"), n, nl)), fs)
+            return key, run_cmds(uft, os.path.join(root, "t-%s-%d-%d" % (fname.replace("/", "_"), n, nl)), fs,
+                                 allcmds if fname == "task.txt" else None)
 
         ctx.log("e2e: %d jobs, %d whole-record copies, %d complete-line copies" % (len(jobs), len(canon_needed), len(text_canon_needed)))
         with ThreadPoolExecutor(16) as ex:
@@ -741,7 +824,7 @@ def e2e(ctx, objdir):
             for (fname, mode, n), res in results:
                 if res is not None and mode == "cut" and unterminated(fname, n):
                     ref = tcanon[(fname, line_start(fname, n), 0)]
-                    if any(res[c][0] == 0 and (res[c][0], res[c][1]) != (ref[c][0], ref[c][1]) for c in CMDS):
+                    if any(res[c][0] == 0 and (res[c][0], res[c][1]) != (ref[c][0], ref[c][1]) for c in CMDS if c in res):
                         need_nl.append((fname, n, 1))
             tnl = dict(ex.map(run_text_variant, need_nl))
         partial_accepted = 0
@@ -749,7 +832,7 @@ def e2e(ctx, objdir):
         for (fname, mode, n), res in results:
             if res is None:
                 continue
-            kind = "dat" if fname.endswith(".dat") else "sym" if fname.endswith(".sym") else "map" if fname.endswith(".map") else fname
+            kind = "dat" if is_task(fname) else "perf" if fname.startswith("perf-cpu") else "sym" if fname.endswith(".sym") else "map" if fname.endswith(".map") else fname
             tags = ["e2e:file=" + kind]
             how = {"cut": "cut at byte %d" % n, "missing": "missing", "drop": "without its line %d" % (n + 1)}[mode]
             if mode == "missing":
@@ -760,7 +843,9 @@ def e2e(ctx, objdir):
                                                    ls[n].split(b":")[0].decode(errors="replace")))
             elif fname == "100.dat":
                 tags += ["e2e:" + t for t in classify_cut(spans, n)]
-            elif fname.endswith(".dat"):
+            elif fname.startswith("perf-cpu"):
+                tags.append("e2e:perf:" + ("in:8-byte-event-header" if n % 8 and n < 8 else "cut"))
+            elif is_task(fname):
                 tags.append("e2e:other-task:" + ("at:record-boundary" if n % 16 == 0 else "in:16-byte-header"))
             else:
                 body = files[fname][:n][40:] if fname == "info" else files[fname][:n]
@@ -775,7 +860,7 @@ def e2e(ctx, objdir):
                 else:
                     tags.append("e2e:mid-line")
             if len(res) > len(CMDS) + 1:
-                tags.append("e2e:with-option-variants")
+                tags.append("e2e:with-option-variants" if len(res) > len(CMDS) + 10 else "e2e:with-a-third-of-the-variants")
             ctx.case(key=("e2e", di, fname, mode, n), nontrivial=(mode != "cut" or n > 0), tags=tags, size=max(n, 0))
             for c in res:
                 nruns += 1
@@ -797,7 +882,7 @@ def e2e(ctx, objdir):
                     continue
                 if mode != "cut" or c == DIFF_DAMAGED[0]:
                     continue
-                if fname.endswith(".dat") and n > 0 and whole(fname, n) != n:
+                if is_task(fname) and n > 0 and whole(fname, n) != n:
                     wl = whole(fname, n)
                     ref = canon[(fname, wl if wl > 0 else 1)][c]
                     rep["expected_stdout"] = ref[1][-600:]
@@ -810,10 +895,17 @@ def e2e(ctx, objdir):
                         viol(ctx, "e2e-output:" + c, "uftrace %s on a task file (%s) cut at byte %d neither prints what it prints on the "
                              "copy cut at the last whole record (byte %d) nor stops with a diagnostic and a prefix of that output"
                              % (c, fname, n, wl), rep)
-                elif c in CMDS and unterminated(fname, n):
+                elif (c in CMDS or fname == "task.txt") and unterminated(fname, n):
                     k = line_start(fname, n)
                     ref = tcanon[(fname, k, 0)][c]
-                    if rc != 0 and err.strip():
+                    if fname == "task.txt":
+                        # the task list reader skips an unterminated last line (C12_task_txt_prefix): exactly the copy
+                        if (rc, out) != (ref[0], ref[1]):
+                            rep["expected_stdout"] = ref[1][-600:]
+                            rep["expected_rc"] = ref[0]
+                            viol(ctx, "e2e-tasktxt", "uftrace %s with task.txt cut at byte %d (inside a line) does not print what it "
+                                 "prints on the copy cut at the last complete line (byte %d)" % (c, n, k), rep)
+                    elif rc != 0 and err.strip():
                         ctx.tag("e2e:text-rest-rejected")            # diagnostic
                     elif (rc, out) == (ref[0], ref[1]):
                         ctx.tag("e2e:text-rest-ignored-or-invisible")   # as for the copy cut at the last complete line
